@@ -232,9 +232,15 @@ func (g *Generator) generateFlattenedMarshal(
 	fieldGoName := variant.Field.GoName
 	fieldJSONName := variant.Field.Desc.JSONName()
 
-	gf.P("// Flatten: marshal variant via json.Marshal to invoke child MarshalJSON")
+	gf.P("// Flatten: marshal variant via its MarshalJSON if it has one, protojson otherwise")
 	gf.P("if inner := x.Get", fieldGoName, "(); inner != nil {")
-	gf.P("variantData, varErr := json.Marshal(inner)")
+	gf.P("var variantData []byte")
+	gf.P("var varErr error")
+	gf.P("if jm, ok := any(inner).(json.Marshaler); ok {")
+	gf.P("variantData, varErr = jm.MarshalJSON()")
+	gf.P("} else {")
+	gf.P("variantData, varErr = protojson.Marshal(inner)")
+	gf.P("}")
 	gf.P("if varErr == nil {")
 	gf.P("var variantMap map[string]json.RawMessage")
 	gf.P("if json.Unmarshal(variantData, &variantMap) == nil {")
@@ -357,14 +363,12 @@ func (g *Generator) generateFlattenedUnmarshal(
 
 	gf.P("variantData, _ := json.Marshal(variantMap)")
 	gf.P("variant := &", msgType, "{}")
-	gf.P("if err := json.Unmarshal(variantData, variant); err != nil {")
-	gf.P(`return fmt.Errorf("failed to unmarshal variant %s: %w", "`, fieldGoName, `", err)`)
-	gf.P("}")
+	generateVariantDecode(gf, "variantData", fieldGoName)
 	gf.P("x.", info.Oneof.GoName, " = &", wrapperType, "{", fieldGoName, ": variant}")
 
 	// Add the variant back to raw under its original field name for protojson
-	// (protojson expects the oneof wrapper format)
-	gf.P(`raw["`, fieldJSONName, `"], _ = json.Marshal(variant)`)
+	// (protojson expects the oneof wrapper format, in proto3 JSON)
+	gf.P(`raw["`, fieldJSONName, `"], _ = protojson.Marshal(variant)`)
 }
 
 // generateNestedUnmarshal generates non-flattened unmarshal code for a message variant.
@@ -380,12 +384,28 @@ func (g *Generator) generateNestedUnmarshal(
 	wrapperType := variant.Field.GoIdent.GoName
 	msgType := variant.Field.Message.GoIdent.GoName
 
-	gf.P("// Non-flattened unmarshal: use json.Unmarshal for child UnmarshalJSON support")
+	gf.P("// Non-flattened unmarshal: use the child's UnmarshalJSON if it has one")
 	gf.P(`if variantRaw, exists := raw["`, fieldJSONName, `"]; exists {`)
 	gf.P("variant := &", msgType, "{}")
-	gf.P("if err := json.Unmarshal(variantRaw, variant); err != nil {")
-	gf.P(`return fmt.Errorf("failed to unmarshal variant %s: %w", "`, fieldGoName, `", err)`)
-	gf.P("}")
+	generateVariantDecode(gf, "variantRaw", fieldGoName)
 	gf.P("x.", info.Oneof.GoName, " = &", wrapperType, "{", fieldGoName, ": variant}")
+	gf.P("// Hand the variant to protojson (below) in proto3 JSON")
+	gf.P(`raw["`, fieldJSONName, `"], _ = protojson.Marshal(variant)`)
+	gf.P("}")
+}
+
+// generateVariantDecode generates the decoding of the JSON bytes in dataVar into variant:
+// through the variant's UnmarshalJSON if its type has one (annotation composability),
+// through protojson otherwise. encoding/json must not see a plain proto message: it would
+// apply Go struct rules (snake_case keys, numeric int64 and enums) instead of proto3 JSON.
+func generateVariantDecode(gf *protogen.GeneratedFile, dataVar, fieldGoName string) {
+	gf.P("var variantErr error")
+	gf.P("if um, ok := any(variant).(json.Unmarshaler); ok {")
+	gf.P("variantErr = um.UnmarshalJSON(", dataVar, ")")
+	gf.P("} else {")
+	gf.P("variantErr = protojson.Unmarshal(", dataVar, ", variant)")
+	gf.P("}")
+	gf.P("if variantErr != nil {")
+	gf.P(`return fmt.Errorf("failed to unmarshal variant %s: %w", "`, fieldGoName, `", variantErr)`)
 	gf.P("}")
 }
